@@ -281,7 +281,14 @@ def check(pid, tier):
             p = pid
         # C03: a valid (acyclic) composition must run to the end: a cycle report there is also a
         # termination failure
-        if pid == "C03" and zone == "dag" and base in ("false-cycle", "false-cycle-zone"):
+        if pid == "C03" and zone in ("dag", "resolved") and base in ("false-cycle", "false-cycle-zone"):
+            p = pid
+        # C01: a component updated while it waits for itself was updated before its input data exists
+        if pid == "C01" and base == "cycle-not-reported":
+            p = pid
+        # C02: "the time for which the driver checks availability on a link equals the time that is
+        # actually requested": an update whose announced pull is not available was checked for another time
+        if pid == "C02" and base == "avail":
             p = pid
         if p != pid:
             other[p] = other.get(p, 0) + 1
